@@ -57,23 +57,23 @@ def r08_1(ctx: Ctx) -> None:
     cfg = CFG(func)
     gene = func.args.args[1].arg
     visited: Dict[str, ast.For] = {}
-    # direct loops over self.<list> (possibly sliced) and loops over a literal list of such lists
-    for loop in [n for n in walk_local(func) if isinstance(n, ast.For)]:
-        base = loop.iter
-        while isinstance(base, ast.Subscript):
-            base = base.value
-        path = dotted(base)
-        if path and path.startswith("self.") and path[5:] in lists:
-            visited[path[5:]] = loop
-        elif isinstance(base, ast.Name):
-            for val in bound_from(func, base.id):
-                if isinstance(val, (ast.List, ast.Tuple)):
-                    for elt in val.elts:
-                        p = dotted(elt)
-                        if p and p.startswith("self.") and p[5:] in lists:
-                            inner = [n for n in walk_local(loop) if isinstance(n, ast.For) and txt(n.iter) == txt(loop.target)]
-                            if inner:
-                                visited[p[5:]] = inner[0]
+    # which of the record's collection lists does each loop run over?  The iteration source is resolved through locals
+    # (slices, a literal list of lists, itertools.chain / chain.from_iterable and concatenations all name the lists);
+    # a loop over the variable of an enclosing loop visits what that loop ranges over
+    from ..flow import fact_texts, inline_reaching
+
+    def covered(loop: ast.For) -> List[str]:
+        resolved = inline_reaching(cfg, loop, loop.iter)
+        names = [dotted(n)[5:] for n in ast.walk(resolved) if isinstance(n, ast.Attribute) and dotted(n)
+                 and dotted(n).startswith("self.") and dotted(n)[5:] in lists]
+        return names
+    all_loops = [n for n in walk_local(func) if isinstance(n, ast.For)]
+    for loop in all_loops:
+        names = covered(loop)
+        inner = [n for n in walk_local(loop) if isinstance(n, ast.For) and n is not loop and txt(n.iter) == txt(loop.target)]
+        target = inner[0] if inner else loop
+        for name in names:
+            visited[name] = target
     ctx.ob("R08.1", REC, func, qual, "collections visited", set(visited) == set(lists),
            "a gene added after the areas is offered to every list of CDS collections the record holds",
            form=f"visited={sorted(visited)} held={sorted(lists)}")
@@ -82,8 +82,7 @@ def r08_1(ctx: Ctx) -> None:
         adds = [c for c in calls(loop) if txt(c.func) == f"{var}.add_cds" and c.args and txt(c.args[0]) == gene]
         ok = bool(adds)
         if ok:
-            gs = guards(adds[0], stop=loop)
-            ok = any(pol and txt(t) == f"{gene}.is_contained_by({var})" for t, pol in gs)
+            ok = f"{gene}.is_contained_by({var})" in fact_texts(cfg, adds[0])
         ctx.ob("R08.1", REC, loop, qual, f"link into {name}", ok,
                "the gene is added to each collection of the list that contains it", form=f"for {var} in {txt(loop.iter)}")
         # on every path through the function
@@ -143,50 +142,105 @@ def r08_1(ctx: Ctx) -> None:
 
 
 def r08_2(ctx: Ctx) -> None:
+    from ..flow import fact_texts, facts_nnf, inline_reaching, nnf_literals, path_facts, resolved_facts
     qual = "CDSCollection.add_cds"
-    func = ctx.fn(COLL, qual)
+    func = ctx.fn(COLL, qual, inline=True)
     cfg = CFG(func)
-    refusal = [n for n in walk_local(func) if isinstance(n, ast.If) and txt(n.test) == "not cds.is_contained_by(self)"
-               and any(isinstance(s, ast.Raise) for s in n.body)]
+    gene = func.args.args[1].arg
     store = [c for c in calls(func) if txt(c.func) == "self._cdses.add_cds"]
-    ok = bool(refusal) and bool(store) and cfg.dominates(cfg.n(refusal[0]), cfg.n(store[0]))
+    refusal = [r for r in walk_local(func) if isinstance(r, ast.Raise) and f"not {gene}.is_contained_by(self)" in fact_texts(cfg, r)]
+    ok = bool(refusal) and bool(store) and f"{gene}.is_contained_by(self)" in fact_texts(cfg, store[0])
     ctx.ob("R08.2", COLL, func, qual, "containment refusal", ok,
            "a gene not contained by the collection is refused before the collection is modified", form="")
     loops = [n for n in walk_local(func) if isinstance(n, ast.For) and txt(n.iter) == "self._children"]
     ok = False
-    if loops:
+    if loops and store:
         var = txt(loops[0].target)
         fw = [c for c in calls(loops[0]) if txt(c.func) == f"{var}.add_cds"]
-        ok = bool(fw) and any(pol and txt(t) == f"cds.is_contained_by({var})" for t, pol in guards(fw[0], stop=loops[0])) \
-            and cfg.postdominates(cfg.n(loops[0]), cfg.n(store[0])) if store else False
+        inner = set()
+        if fw:
+            inner = {("" if t else "not ") + txt(e) for e, t in path_facts(cfg, fw[0]) if any(a is loops[0] for a in _anc(e))}
+        ok = bool(fw) and inner == {f"{gene}.is_contained_by({var})"} and cfg.postdominates(cfg.n(loops[0]), cfg.n(store[0]))
     ctx.ob("R08.2", COLL, loops[0] if loops else func, qual, "forward to children", ok,
            "after storing the gene it is offered to every child, and added to those that contain it", form="")
-    # section choice
-    ok = "CollectionSection.CROSS_ORIGIN" in txt(func) and "cds.crosses_origin()" in txt(func) and \
-        "cds.is_contained_by(self.location.parts[1])" in txt(func)
+    # section choice: every place that files the gene as crossing / post-origin does so on the gene's own location
+    choices = {}
+    for node in walk_local(func):
+        value = None
+        if isinstance(node, (ast.Assign, ast.AnnAssign)) and node.value is not None:
+            value = node.value
+        elif isinstance(node, ast.Return):
+            value = node.value
+        if value is not None and isinstance(value, ast.Attribute) and txt(value.value) == "CollectionSection":
+            lits = nnf_literals(resolved_facts(cfg, node)) | nnf_literals(facts_nnf(path_facts(cfg, node)))
+            choices.setdefault(value.attr, []).append({("" if truth else "not ") + text for text, truth in lits})
+    cross = choices.get("CROSS_ORIGIN", [])
+    post = choices.get("POST_ORIGIN", [])
+    ok = bool(cross) and all(f"{gene}.crosses_origin()" in facts for facts in cross) and \
+        bool(post) and all(f"{gene}.is_contained_by(self.location.parts[1])" in facts for facts in post) and \
+        "PRE_ORIGIN" in choices
     ctx.ob("R08.2", COLL, func, qual, "section choice", ok,
-           "for origin-spanning collections the gene is filed as crossing, pre- or post-origin by its own location", form="")
+           "for origin-spanning collections the gene is filed as crossing, pre- or post-origin by its own location",
+           form=str({k: [sorted(f) for f in v] for k, v in choices.items()})[:300])
     qual = "Protocluster.add_cds"
     func = ctx.fn(PROTO, qual)
     cfg = CFG(func)
+    gene = func.args.args[1].arg
     adds = [c for c in calls(func) if txt(c.func) == "self._definition_cdses.add"]
-    early = [n for n in walk_local(func) if isinstance(n, ast.If) and txt(n.test) == "not cds.is_contained_by(self.core_location)"
-             and any(isinstance(s, ast.Return) for s in n.body)]
     sup = [c for c in calls(func) if txt(c.func) == "super().add_cds"]
-    ok = bool(adds) and bool(early) and cfg.dominates(cfg.n(early[0]), cfg.n(adds[0]))
+    facts = fact_texts(cfg, adds[0]) if adds else set()
+    ok = bool(adds) and f"{gene}.is_contained_by(self.core_location)" in facts
     ctx.ob("R08.2", PROTO, func, qual, "defining gene inside the core", ok,
-           "a gene becomes a defining gene only if it lies inside the protocluster's core", form="")
+           "a gene becomes a defining gene only if it lies inside the protocluster's core", form=str(sorted(facts))[:200])
     ok = False
+    form = ""
     if adds:
-        gs = guards(adds[0], stop=func)
-        cores = [txt(v) for v in bound_from(func, "cores")]
-        ok = any(pol and txt(t) == "any((core.product == self.product for core in cores))" for t, pol in gs) and \
-            cores == ["cds.gene_functions.get_by_function(GeneFunction.CORE)"]
+        # either `any(core.product == self.product for core in <CORE functions>)` or a loop over them with the test inside
+        source = f"{gene}.gene_functions.get_by_function(GeneFunction.CORE)"
+        for expr, truth in path_facts(cfg, adds[0]):
+            resolved = inline_reaching(cfg, expr, expr)
+            if truth and isinstance(resolved, ast.Call) and call_name(resolved) == "any" and resolved.args \
+                    and isinstance(resolved.args[0], (ast.GeneratorExp, ast.ListComp)):
+                gen = resolved.args[0].generators[0]
+                elt = resolved.args[0].elt
+                var = txt(gen.target)
+                if txt(gen.iter) == source and not gen.ifs and txt(elt) in (f"{var}.product == self.product", f"self.product == {var}.product"):
+                    ok = True
+                    form = txt(resolved)
+            if truth and isinstance(expr, ast.Compare):
+                for loop in enclosing_loops(adds[0], stop=func):
+                    var = txt(loop.target)
+                    if txt(inline_reaching(cfg, loop, loop.iter)) == source and \
+                            txt(expr) in (f"{var}.product == self.product", f"self.product == {var}.product"):
+                        ok = True
+                        form = f"for {var} in {source}: if {txt(expr)}"
     ctx.ob("R08.2", PROTO, func, qual, "defining gene has a core function of this product", ok,
-           "and only if it carries a CORE gene function whose product equals the protocluster's product", form="")
-    ok = bool(sup) and bool(early) and cfg.dominates(cfg.n(sup[0]), cfg.n(early[0]))
+           "and only if it carries a CORE gene function whose product equals the protocluster's product", form=form)
+    ok = bool(sup) and bool(adds) and cfg.dominates(cfg.n(sup[0]), cfg.n(adds[0])) and \
+        cfg.postdominates(cfg.n(sup[0]), cfg.entry)
     ctx.ob("R08.2", PROTO, func, qual, "membership first", ok,
            "the gene is first added as a member (with the containment refusal of the base class)", form="")
+
+
+def _anc(node: ast.AST):
+    cur = getattr(node, "_parent", None)
+    while cur is not None:
+        yield cur
+        cur = getattr(cur, "_parent", None)
+
+
+def _resolve_text(cfg: CFG, func: ast.AST, text: str) -> str:
+    """ a fact text with its locals resolved (facts are re-parsed; negation prefix kept) """
+    from ..flow import inline_reaching
+    neg = text.startswith("not ")
+    body = text[4:] if neg else text
+    try:
+        expr = ast.parse(body, mode="eval").body
+    except SyntaxError:
+        return text
+    last = func.body[-1]
+    resolved = txt(inline_reaching(cfg, last, expr))
+    return ("not " if neg else "") + resolved
 
 
 def r08_3(ctx: Ctx) -> None:
@@ -202,9 +256,15 @@ def r08_3(ctx: Ctx) -> None:
                    "features tying with the searched one are inside the window",
                    detail="" if ok else f"the {role} bound derives from bisect_{kind}", form=f"{txt(node)} [{role}: bisect_{kind}]")
     helper = ctx.fn(REC, "Record.get_cds_features_within_location.find_start_in_list")
-    ok = "bisect.bisect_left(features, dummy)" in txt(helper) and \
-        any(isinstance(n, ast.While) and "location.start == location.start" in txt(n.test).replace("features[index - 1].", "")
-            or isinstance(n, ast.While) and ".location.start == location.start" in txt(n.test) for n in walk_local(helper))
+    hparams = [a.arg for a in helper.args.args]
+    starts = [n for n in walk_local(helper) if isinstance(n, ast.Assign) and isinstance(n.value, ast.Call)
+              and call_name(n.value).split(".")[-1] == "bisect_left" and n.value.args and txt(n.value.args[0]) == hparams[1]]
+    ok = False
+    if starts:
+        index = txt(starts[0].targets[0])
+        ok = any(isinstance(n, ast.While) and f"{hparams[1]}[{index} - 1].location.start == {hparams[0]}.start" in txt(n.test)
+                 and any(isinstance(b, ast.AugAssign) and txt(b.target) == index and isinstance(b.op, ast.Sub) and txt(b.value) == "1"
+                         for b in n.body) for n in walk_local(helper))
     ctx.ob("R08.3", REC, helper, "Record.get_cds_features_within_location.find_start_in_list", "ties at the start included", ok,
            "the lookup starts at the lower bisection point and walks back over genes sharing the query's start", form="")
     if count < 2:
